@@ -1128,10 +1128,10 @@ def run(ctx):
         ctx.direct(check_builtin, {"kind": "builtin"}, label="builtin")
     ctx.enumerate(pinned_histories(), check_history, label="history-pinned", stop_after=40)
     ctx.enumerate(mutant_cases(), check_mutant, label="mutant-enum", stop_after=12)
-    ctx.hypothesis(st_mutant(), check_mutant, ctx.scale(2400, 40000), label="mutant")
-    ctx.hypothesis(st_history(), check_history, ctx.scale(2400, 60000), label="history")
-    ctx.hypothesis(st_equiv(), check_equiv, ctx.scale(1200, 24000), label="equiv")
-    ctx.hypothesis(st_anc_case(), check_anc, ctx.scale(2000, 40000), label="anc")
+    ctx.hypothesis(st_mutant(), check_mutant, ctx.scale(2000, 20000), label="mutant")
+    ctx.hypothesis(st_history(), check_history, ctx.scale(2000, 30000), label="history")
+    ctx.hypothesis(st_equiv(), check_equiv, ctx.scale(1000, 12000), label="equiv")
+    ctx.hypothesis(st_anc_case(), check_anc, ctx.scale(1600, 20000), label="anc")
 
 
 def replay(case, ctx):
